@@ -110,4 +110,33 @@ WORKER_PARALLEL = dict(
                                     "MPI.COMM_WORLD.gather": ("gather", {"root": "0"})})),
     ])
 
-TARGETS = [INPUTCHECK, SPAWNER, COMMUNICATION, BACKEND, SHARED_PATH, CACHE_CMD, WORKER_SERIAL, WORKER_PARALLEL]
+SHARED_RES = dict(
+    out="SharedRes", file="executorlib/interactive/shared.py", requires=["InputCheck"],
+    funcs=[
+        dict(py="_wait_for_free_slots", name="wait_guards",
+             guards_only=[
+                 dict(name="wait_guard_cores", vars=["active_task_dict", "cores_requested", "max_cores"],
+                      body="active_task_dict = {k: v for k, v in active_task_dict.items() if not k.done()}"),
+                 dict(name="wait_guard_workers", vars=["active_task_dict", "max_workers"],
+                      body="active_task_dict = {k: v for k, v in active_task_dict.items() if not k.done()}"),
+             ]),
+        dict(py="_submit_function_to_separate_process", inout=["task_dict"],
+             skip=["qtask.put(task_dict)", "qtask.put({'shutdown': True, 'wait': True})"],
+             opaque_fun={"_wait_for_free_slots": ("wait_slots", 4)},
+             returns_call=("RaisingThread", ["kwargs"], ["slots_required", "active_task_dict"])),
+        dict(py="ExecutorBroker.submit", name="broker_submit_checks", allow_star=True,
+             snippet=dict(first="check_resource_dict_is_empty(resource_dict=resource_dict)",
+                          last="check_resource_dict_is_empty(resource_dict=resource_dict)",
+                          params=["resource_dict"], returns=["resource_dict"])),
+    ])
+
+CACHE_RES = dict(
+    out="CacheRes", file="executorlib/cache/shared.py",
+    funcs=[
+        dict(py="execute_tasks_h5", name="file_mode_resources",
+             snippet=dict(first="task_resource_dict = task_dict['resource_dict'].copy()",
+                          last="task_resource_dict.update({k: v for k, v in resource_dict.items() if k not in task_resource_dict})",
+                          params=["task_dict", "resource_dict"], returns=["task_resource_dict", "task_dict", "resource_dict"])),
+    ])
+
+TARGETS = [INPUTCHECK, SPAWNER, COMMUNICATION, BACKEND, SHARED_PATH, CACHE_CMD, WORKER_SERIAL, WORKER_PARALLEL, SHARED_RES, CACHE_RES]
